@@ -5,7 +5,7 @@ import subprocess
 import codec
 
 HERE = os.path.dirname(os.path.abspath(__file__))
-EXE = os.path.join(HERE, "..", "lean", ".lake", "build", "bin", "jsdriver")
+EXE = os.environ.get("JS_DRIVER") or os.path.join(HERE, "..", "lean", ".lake", "build", "bin", "jsdriver")
 
 
 class DriverError(Exception):
